@@ -572,6 +572,64 @@ func TestVerifC08(t *testing.T) {
 	})
 }
 
+// c08Flood: "tracked state stays bounded by the registration rate" for a rate that is not small:
+// thousands of registrations arrive within a minute (distinct sessions, distinct phantoms), none is
+// used; eleven minutes later one sweep must leave nothing behind, and a flood half as large that
+// arrived nine minutes later must be there in full.
+func c08Flood(w *c08World, n int) {
+	r := w.r
+	mk := func(i int) *DecoyRegistration {
+		secret := make([]byte, 32)
+		secret[0], secret[1], secret[2], secret[3] = 0xF1, byte(i>>16), byte(i>>8), byte(i)
+		keys, err := core.GenSharedKeys(uint(core.CurrentClientLibraryVersion()), secret, pb.TransportType_Min)
+		if err != nil {
+			panic(err)
+		}
+		src := pb.RegistrationSource_API
+		t := w.rm.registeredDecoys.transports[pb.TransportType_Min]
+		return &DecoyRegistration{PhantomIp: net.IPv4(10, byte(i>>16), byte(i>>8), byte(i)).To4(), PhantomPort: 443, Keys: &keys, Covert: "203.0.113.5:443",
+			Transport: pb.TransportType_Min, TransportPtr: &t, RegistrationSource: &src, RegistrationTime: time.Now()}
+	}
+	add := func(from, to int) bool {
+		for i := from; i < to; i++ {
+			reg := mk(i)
+			if err := w.rm.TrackRegistration(reg); err != nil {
+				r.Fail("C08/track-error", "TrackRegistration: %v", err)
+				return false
+			}
+			w.rm.AddRegistration(reg)
+			if i%100 == 99 {
+				time.Sleep(time.Second)
+			}
+		}
+		return true
+	}
+	r.Logf("flood of %d registrations", n)
+	r.Probe("flood_of_registrations")
+	r.CoverU(uint64(n))
+	if !add(0, n) {
+		return
+	}
+	time.Sleep(9 * time.Minute)
+	if !add(n, n+n/2) {
+		return
+	}
+	time.Sleep(2*time.Minute + 10*time.Second)
+	w.rm.RemoveOldRegistrations()
+	rd := w.rm.registeredDecoys
+	rd.m.RLock()
+	regs, recs := rd.totalRegistrations(), len(rd.decoysTimeouts)
+	rd.m.RUnlock()
+	r.Nontrivial()
+	if regs > n/2 || recs > n/2 {
+		r.Fail("C08/kept-past-lifetime/flood", "%d unused registrations arrived within a minute, %d more nine minutes later; a sweep 11 min 10 s after the first flood leaves %d registrations and %d timeout records tracked (only the second flood, %d, is younger than 10 minutes)", n, n/2, regs, recs, n/2)
+		return
+	}
+	if regs < n/2 || recs < n/2 {
+		r.Fail("C08/removed-early/flood", "after the sweep %d registrations / %d timeout records are tracked, but the %d registrations of the second flood are only about 2 minutes old", regs, recs, n/2)
+	}
+}
+
 func c08Scenario(r *sim.Run) {
 	tp := r.Tape
 	s := hook.Install(tp)
@@ -593,6 +651,10 @@ func c08Scenario(r *sim.Run) {
 		}
 		// always end with a sweep far in the future? no: end with a sweep now, so every history is judged
 		w.sweep()
+		return
+	}
+	if tp.Prob("flood", 1, 400) {
+		c08Flood(w, 5000+1500*tp.Choose("flood-size", 5))
 		return
 	}
 	n := 1 + tp.Choose("len", 200)
